@@ -175,7 +175,7 @@ def _run_shard(job):
     samples = {}
     signal.signal(signal.SIGALRM, _on_alarm)
     lib.MODE = 'int' if '#int' in fam.name else 'float'
-    lib.FORM = 'B' if '#formB' in fam.name else ('C' if '#formC' in fam.name else 'A')
+    lib.FORM = next((f for f in 'BCD' if '#form' + f in fam.name), 'A')
     for scene in fam.scenes(shard):
         signal.setitimer(signal.ITIMER_REAL, fam.scene_timeout)
         try:
